@@ -25,31 +25,33 @@ fn slot(addr: usize) -> usize {
     (addr >> 6).wrapping_mul(0x9E37_79B9_7F4A_7C15usize) >> (usize::BITS as usize - TABLE_BITS)
 }
 
+const MAX_PROBE: usize = 128;
+
 fn side_insert(addr: usize, log_align: usize) {
     let v = addr | log_align; // addr is >= 32-aligned, low 5 bits free
     let mut i = slot(addr);
-    for _ in 0..TABLE {
-        if SIDE[i].compare_exchange(0, v, Ordering::AcqRel, Ordering::Relaxed).is_ok() {
-            return;
-        }
-        // tombstone reuse
-        if SIDE[i].compare_exchange(1, v, Ordering::AcqRel, Ordering::Relaxed).is_ok() {
+    for _ in 0..MAX_PROBE {
+        let cur = SIDE[i].load(Ordering::Acquire);
+        if (cur == 0 || cur == 1) && SIDE[i].compare_exchange(cur, v, Ordering::AcqRel, Ordering::Relaxed).is_ok() {
             return;
         }
         i = (i + 1) & (TABLE - 1);
     }
-    // table full: give up tracking (native dealloc with a smaller align is tolerated by System)
+    // neighbourhood full: give up tracking (a native dealloc with a smaller align is tolerated by System)
 }
 
 fn side_take(addr: usize) -> Option<usize> {
     let mut i = slot(addr);
-    for _ in 0..TABLE {
+    for _ in 0..MAX_PROBE {
         let v = SIDE[i].load(Ordering::Acquire);
         if v == 0 {
             return None;
         }
         if v != 1 && (v & !31) == addr {
-            SIDE[i].store(1, Ordering::Release);
+            // leave a tombstone only when the probe chain continues behind this slot, otherwise free it:
+            // keeps the table from silting up with tombstones over millions of alloc/free pairs
+            let next = SIDE[(i + 1) & (TABLE - 1)].load(Ordering::Acquire);
+            SIDE[i].store(if next == 0 { 0 } else { 1 }, Ordering::Release);
             return Some(v & 31);
         }
         i = (i + 1) & (TABLE - 1);
